@@ -5,5 +5,5 @@ From Martian Require Import Lib.Bytes Mro.Ast K.Refactor.
 Extraction Language OCaml.
 Extraction "model.ml"
   b2n n2b
-  check_rename check_removal check_roundtrip denote diff_removed go_renaming rename_ast
+  check_rename check_removal check_roundtrip check_combo denote diff_removed go_renaming rename_ast
   RenameCallable mk_ast.
